@@ -12,3 +12,4 @@ bool_t memIsDisjoint2(const void* buf1, size_t count1, const void* buf2, size_t 
 		return o1 + count1 <= o2 || o1 >= o2 + count2;
 	}
 }
+
